@@ -176,8 +176,9 @@ var<workgroup> w: T;
   (*pa)[3] = *po + 1;
   out[3] = s.a[3];
 }`,
-			bufs: map[int][]byte{0: fill(5), 1: i32s(2)},
-			want: []any{8, 16, 0, 100, 99},
+			bufs:           map[int][]byte{0: fill(5), 1: i32s(2)},
+			zeroInitDefect: "function-scope var without initializer is emitted as OpVariable without initializer and never stored: contents undefined in SPIR-V, WGSL requires the zero value",
+			want:           []any{8, 16, 0, 100, 99},
 		},
 		{
 			name: "workgroup_barrier_4",
@@ -355,8 +356,9 @@ var<workgroup> wf: F;
   wf = pf;
   out[2] = select(0u, 1u, wf.on) * 100u + wf.n * 10u + select(0u, 1u, wf.flags.y) + select(0u, 5u, wf.flags.x);
 }`,
-			bufs: map[int][]byte{0: fill(3), 1: u32s(3)},
-			want: []any{130, 0, 151},
+			bufs:           map[int][]byte{0: fill(3), 1: u32s(3)},
+			zeroInitDefect: "var<private> without/with dropped initializer is emitted as OpVariable without initializer: contents undefined in SPIR-V, WGSL requires the zero value",
+			want:           []any{130, 0, 151},
 		},
 	})
 }
